@@ -328,3 +328,13 @@ class _:
                "C20.file-prepend-given-first": "forall(t, 0 <= t < old(len(append_middleware)), ghost('mw_who', old(ghost('mw_n')) + t) == old(ref_id(append_middleware[t])))"}
     raises = {"Exception": {"when": None, "frame": False}}
     modifies = WRITE_MOD
+
+
+@contract(EP + "write_file#stack-object")
+class _:
+    """write_file(f, lib, parse_stack=U) with an open file object: the same stack application; the text goes to f.write"""
+    sorts = {"file": "ext", "library": "ref:Library", "parse_stack": "list:ref:Middleware", "append_middleware": "none", "bibtex_format": "optref:ref:BibtexFormat"}
+    requires = {"trace-nonneg": "ghost('mw_n') >= 0"}
+    ensures = _stack_ensures("parse_stack", "old(ref_id(library))", "write")
+    raises = {"Exception": {"when": None, "frame": False}}
+    modifies = WRITE_MOD
